@@ -96,6 +96,16 @@ CHECKS = {
          "DESIGN.md §4 C20",
          "All histories (5 session states x 7 orders of LSP shutdown/exit, DAP disconnect, closing stdin/TCP x gap patterns) are run twice against the real `mos lsp` process over stdio and TCP: exit status 0 within 5 s, debug port free afterwards, no panic. A Promela model of Main/DebugThread/Client is explored exhaustively by spin (all interleavings, no invalid end state); every observed outcome must be in the model's outcome set for that history.",
          "Timing inside the real process is a finite gap menu, not controlled; the hand-written model is bound to the code by outcome conformance only; 'promptly' = 5 s."),
+ "C04": ("fault_enumeration",
+         "exhaustive single-fault injection: fault classes x every statement slot of every base program (contexts incl. imported file), in-process location oracle + real-binary exit/stdout/target-directory oracle",
+         "DESIGN.md §4 C04",
+         "18 fault texts covering the 11 error classes are injected one at a time at every statement slot of every valid base program - top level, scopes, loop bodies, taken branches, invoked macro bodies, segment and import blocks - and at every line boundary of the imported file. Each faulty project must produce a diagnostic whose line lies inside the offending construct (the second definition for redefinitions, the branch for range errors, the call for arity errors); through the real binary: exit status 1, stdout names file:line:col, the target directory keeps exactly its two pre-existing files, unmodified.",
+         "One fault per program; weakest reading of 'names the location' (line within the construct); semantic faults only where `mos build` assembles the code."),
+ "C11": ("exploration",
+         "bounded-exhaustive program enumeration with a certificate oracle: the fixed-point walker's byte->statement attribution against the source map and the parsed listing text",
+         "DESIGN.md §4 C11",
+         "For programs covering every emitting statement kind, long lines, scopes, pc assignments, loops, conditionals, macros invoked 1-3 times and in loops, 1-2 segments plain / relocated / interleaved / with overlapping target ranges, plus every assembling statement sequence of the C02 alphabet up to length 2 (3 thorough), in both macro attribution modes and for bytes-per-line 1..16: the source map must attribute exactly the target ranges of each statement's bytes to spans inside that statement (or its invocation), and the listing must show per source line exactly those bytes in emission order with correct row addresses, each line once.",
+         "Imports are not covered by the certificate walker; row contiguity is not demanded."),
 }
 
 NOT_YET = {
